@@ -49,7 +49,7 @@ ASSUMPTIONS = [
 
 
 def budget(tier):
-    return int(os.environ.get("VERIF_BUDGET", 0)) or {"quick": 2500, "thorough": 30000}[tier]
+    return int(os.environ.get("VERIF_BUDGET", 0)) or {"quick": 8000, "thorough": 100000}[tier]
 
 
 # ---------------------------------------------------------------- generation
@@ -494,11 +494,6 @@ def wire_ops(ops):
     return out
 
 
-def full_ops(case, world_tasks_len):
-    """The case's ops plus the closing add_task making one sink (decided on the real graph)."""
-    return case["ops"]
-
-
 def run_case(case, drv):
     rng = random.Random(case["seed"])
     k, mon, tags = [], [], []
@@ -697,16 +692,14 @@ def run_case(case, drv):
         try:
             with patched_scheduler(sched):
                 res = ["ok", execute_workflow(wf, dispatcher=disp, context=ctx)]
-        except ValueError as e:
-            if "Workflow can only have one output task" in str(e):
+        except Exception as e:  # noqa: an exception of the real code is an observation, not a harness error
+            if isinstance(e, ValueError) and "Workflow can only have one output task" in str(e):
                 res = ["err", "ValueError"]
-            else:
-                raise
-        except RuntimeError as e:
-            if "Cycle detected" in str(e):
+            elif isinstance(e, RuntimeError) and "Cycle detected" in str(e):
                 res = ["err", "RuntimeError"]
             else:
-                raise
+                res = ["err", type(e).__name__]
+                mon.append({"cls": "execute-raised", "what": f"[{sched}] execute_workflow raised {type(e).__name__}: {str(e)[:200]}"})
         results[sched] = res
         tags.append("sched:" + sched.split(":")[0])
         log = list(world.log)
@@ -749,7 +742,7 @@ def run_case(case, drv):
                     k.append(f"executed workflow: model nodes {m_nodes} preds {m_preds}; code nodes {e_nodes} preds {e_preds}")
                 if len(sinks) == 1:
                     code_dict = canon_dict(ewf.as_dask_dict(), ewf, world)
-                    if m_dict[0] != "ok" or sorted(m_dict[1:]) != code_dict:
+                    if m_dict[0] != "ok" or sorted(m_dict[1:], key=repr) != code_dict:
                         k.append(f"dask dict: model {m_dict} code {code_dict}")
             if res[0] == "ok" and drv is not None and len(sinks) == 1:
                 rp = drv.ask(["replay", wt, wo, final, S(log)])
@@ -772,7 +765,7 @@ def run_case(case, drv):
         tags.append("q:call-dict")
         if drv is not None:
             m = drv.ask(["call", wt, wo, final])
-            if m[0] != "ok" or sorted(m[1:]) != code_dict:
+            if m[0] != "ok" or sorted(m[1:], key=repr) != code_dict:
                 k.append(f"call_workflow dict: model {m} code {code_dict}")
         # monitor dask_dict_faithful on the real dict
         problems = check_dict(wf2, wf2.as_dask_dict())
@@ -794,21 +787,33 @@ def run_case(case, drv):
 
 
 def canon_dict(dsk, wf, world):
-    """dask dict -> sorted [[key, fn, [static...], [pred keys...]]] with keys canonicalised to task names."""
+    """dask dict -> sorted [[key, fn, [static...], [pred keys...]]] with keys canonicalised to task names.
+    Total: anything unexpected is kept as a marked repr so that it shows up as a disagreement, not a crash."""
     by_name = {t.name: t for t in wf.tasks}
 
     def ck(key):
-        return "results" if key == "results" else str(int(key[:-37][1:]))
+        if key == "results":
+            return "results"
+        try:
+            return str(int(str(key)[:-37][1:]))
+        except ValueError:
+            return "?" + repr(key)
+
+    def ws(x):
+        try:
+            return S(world.wire_static(x))
+        except Exception:
+            return ["?", repr(x)]
     out = []
     for key, val in dsk.items():
         fn = val[0]
-        name = fn.__name__
-        t = by_name[name]
-        ns = len(t.task_input)
-        static = [S(world.wire_static(x)) for x in val[1:1 + ns]]
+        name = getattr(fn, "__name__", "?")
+        t = by_name.get(name)
+        ns = len(t.task_input) if t is not None else 0
+        static = [ws(x) for x in val[1:1 + ns]]
         preds = [ck(x) for x in val[1 + ns:]]
         out.append([ck(key), name[1:], static, preds])
-    return sorted(out)
+    return sorted(out, key=repr)
 
 
 def check_dict(wf, dsk):
